@@ -240,6 +240,12 @@ def forBreakM? {α σ} : List α → σ → (σ → α → Option (σ × Bool)) 
 /-- `numpy.linalg.norm(v) < d` for a 3-vector: `d > 0` and `‖v‖² < d²` (no square root: exact on rationals) -/
 def normLt (v : Vec3) (d : Rat) : Bool := decide (0 < d) && decide (v.x * v.x + v.y * v.y + v.z * v.z < d * d)
 
+
+/-! seventh batch (the hints, the grouping key and the reported tuples of find_pattern_in_structure; remove_duplicates, atoms_by_type_dict) -/
+/-- `{k(x): v(x) for x in xs}` over a list (or a set given as the list of its members): `d[k] = v` element by element -/
+def dictCompList {α κ β} [DecidableEq κ] (xs : List α) (f : α → κ × β) : List (κ × β) :=
+  xs.foldl (fun acc x => dictInsert acc (f x).1 (f x).2) []
+
 end Mofun.Generated.Py
 
 namespace Mofun.Generated.Code
@@ -871,5 +877,52 @@ def replaceEmptyBranch (replace_pattern_len : Nat) : Bool :=
 def replaceEmptyDelete (to_delete : List Nat) (match_indices : List (List Nat)) : List Nat :=
   let to_delete : List Nat := (Py.setUnion to_delete (List.flatten (List.map (fun match_ => (List.map (fun idx => idx) match_)) match_indices)))
   to_delete
+
+/-- translated from `find_pattern_in_structure` in mofun/mofun.py (FRAGMENT: the grouping key of one candidate, the body of the `key=lambda m: …` handed to group_duplicates: `tuple(sorted([near_indices[i] % len(structure) for i in m]))`; `none` = IndexError / ZeroDivisionError) -/
+def findGroupKey (structure_len : Nat) (near_indices : List Nat) (m : List Nat) : Option (List Int) := do
+  let t3 ← (Py.listMapM? m (fun i => (do let t1 ← (near_indices[i]?); let t2 ← (Py.intMod? ((t1 : Nat) : Int) ((structure_len : Nat) : Int)); pure t2)))
+  pure (Py.sortedAsc t3)
+
+/-- translated from `find_pattern_in_structure` in mofun/mofun.py (FRAGMENT: the reported index tuples, every chosen candidate folded back into the unit cell, in pattern order; `none` = IndexError / ZeroDivisionError) -/
+def findMatchTuplesInUc (structure_len : Nat) (near_indices : List Nat) (good_match_index_tuples : List (List Nat)) : Option (List (List Int)) := do
+  let t4 ← (Py.listMapM? good_match_index_tuples (fun match_ => (do let t3 ← (Py.listMapM? match_ (fun m => (do let t1 ← (near_indices[m]?); let t2 ← (Py.intMod? ((t1 : Nat) : Int) ((structure_len : Nat) : Int)); pure t2))); pure t3)))
+  pure t4
+
+/-- translated from `remove_duplicates` in mofun/helpers.py (FRAGMENT: the `else: # pick first` branch, after the grouping loop: the first member of every group, groups in first-seen order; `random.choice` of the other branch is not translated; `none` = KeyError / IndexError, never raised, see the theorem) -/
+def removeDuplicatesFirst {α κ} [DecidableEq κ] (match_indices : List α) (key : α → κ) : Option (List α) := do
+  let keyed_tuples : List (κ × (List α)) := []
+  let keyed_tuples ← Py.forFoldM? match_indices keyed_tuples (fun keyed_tuples m => do
+      let mkey : κ := (key m)
+      if (!(Py.dictHas keyed_tuples mkey)) then
+        let keyed_tuples : List (κ × (List α)) := (Py.dictSet keyed_tuples mkey [m])
+        pure keyed_tuples
+      else
+        let keyed_tuples ← (Py.dictAppend? keyed_tuples mkey m)
+        pure keyed_tuples
+      )
+  let t2 ← (Py.listMapM? keyed_tuples (fun (_, matches_) => (do let t1 ← (matches_[0]?); pure t1)))
+  pure t2
+
+/-- translated from `atoms_by_type_dict` in mofun/helpers.py; the dict is an association list — the ORDER of its keys follows the iteration order of a python set, which is not modelled (here: first occurrence); `none` = KeyError (never raised, see the theorem) -/
+def atomsByTypeDict (atom_types : List String) : Option (List (String × (List Nat))) := do
+  let atoms_by_type : List (String × (List Nat)) := (Py.dictCompList atom_types (fun k => (k, ([] : List Nat))))
+  let atoms_by_type ← Py.forFoldM? (Py.enumerate atom_types) atoms_by_type (fun atoms_by_type (i, k) => do
+      let atoms_by_type ← (Py.dictAppend? atoms_by_type k i)
+      pure atoms_by_type
+      )
+  pure atoms_by_type
+
+/-- translated from `find_pattern_in_structure` in mofun/mofun.py (FRAGMENT: the two axis hints after the `if … elif …` that fills in the missing ones; parameters: the hints, the arg-max pair of the squared-distance table `np.unravel_index(np.argmax(p_ss, axis=None), p_ss.shape)`, and the function `x ↦ np.argmax(p_ss[x, :])` — the arg-max itself is not translated) -/
+def findAxisHints (axisp1_idx : Option Nat) (axisp2_idx : Option Nat) (farthest_pair : Nat × Nat) (farthest_from : (Option Nat) → Nat) : (Option Nat) × (Option Nat) :=
+  if ((Option.isNone axisp1_idx) && (Option.isNone axisp2_idx)) then
+    let axisp1_idx : Nat := farthest_pair.1
+    let axisp2_idx : Nat := farthest_pair.2
+    ((some axisp1_idx), (some axisp2_idx))
+  else if ((Option.isNone axisp1_idx) || (Option.isNone axisp2_idx)) then
+    let axisp1_idx : Option Nat := (if (Option.isNone axisp1_idx) then axisp2_idx else axisp1_idx)
+    let axisp2_idx : Nat := (farthest_from axisp1_idx)
+    (axisp1_idx, (some axisp2_idx))
+  else
+    (axisp1_idx, axisp2_idx)
 
 end Mofun.Generated.Code
